@@ -381,6 +381,13 @@ fn check_cont(run: &Run, c: &Cont) {
             Ok(g) if g == 0.0 => {
                 run.outcome(&(law, "outside-zero"));
                 run.regime("outside-support-zero");
+                // the log-density is the logarithm of the density: ln 0 = -inf outside the support
+                run.tr();
+                match guard(|| (c.ln_pdf)(x)) {
+                    Ok(l) if l == f64::NEG_INFINITY => {}
+                    Ok(l) => run.violate(&site("ln_pdf/outside-support"), || format!("{}({}).ln_pdf({:e}) = {:e} although the density is 0 there (support [{:e},{:e}])", law, c.params, x, l, lo, hi)),
+                    Err(p) => run.violate(&site("ln_pdf/panic-outside-support"), || format!("{}({}).ln_pdf({:e}): {}", law, c.params, x, p)),
+                }
             }
             Ok(g) => run.violate(&site("pdf/nonzero-outside-support"), || format!("{}({}).pdf({:e}) = {:e} outside the support [{:e},{:e}]", law, c.params, x, g, lo, hi)),
             Err(p) => run.violate(&site("pdf/panic-outside-support"), || format!("{}({}).pdf({:e}): {}", law, c.params, x, p)),
